@@ -1,3 +1,44 @@
-From Serif Require Import Base.PyVal Model.Heap.
-Theorem C02_placeholder : True. Proof. exact I. Qed.
-Print Assumptions C02_placeholder.
+(* Props/C02.v — tables stay rectangular. *)
+From Coq Require Import List Bool ZArith.
+From Serif Require Import Base.PyVal Model.Heap Proofs.HeapBase Proofs.HeapReg Proofs.HeapFrame Proofs.HeapRect.
+Import ListNotations.
+
+(* In every state reachable by any finite sequence of constructions and in-place updates —
+   including sequences containing failed operations — all columns of every table have one
+   common length. *)
+Theorem C02_rectangular_in_every_reachable_state : forall os, Inv_rect (run init os).
+Proof. exact (fun os => reachable_rect os init Inv_own_init Inv_rect_init). Qed.
+Print Assumptions C02_rectangular_in_every_reachable_state.
+
+Theorem C02_rectangularity_preserved : forall s o s' out,
+  step s o = (s', out) -> Inv_own s -> Inv_rect s -> Inv_rect s'.
+Proof. exact step_preserves_Inv_rect. Qed.
+Print Assumptions C02_rectangularity_preserved.
+
+(* Input that would make a table ragged is rejected rather than stored. *)
+Theorem C02_ragged_construction_rejected : forall s ht cs chs sids tsid' built,
+  build_all s cs = Some built -> all_same_len built = false ->
+  step s (ONewTab ht cs chs sids tsid') = (s, ErrOther).
+Proof. exact ragged_rejected. Qed.
+Print Assumptions C02_ragged_construction_rejected.
+
+Theorem C02_wrong_length_column_rejected : forall s ht ci c h' sid' tsid' t l n d old vold,
+  gett s ht = Some t -> build_col s c = Some (l, n, d) -> nth_error (cols t) ci = Some old ->
+  getv s old = Some vold -> List.length l <> List.length (vals vold) ->
+  step s (OSetAttr ht ci c h' sid' tsid') = (s, ErrOther).
+Proof. exact wrong_length_column_rejected. Qed.
+Print Assumptions C02_wrong_length_column_rejected.
+
+(* In-place writes never change a column's length. *)
+Theorem C02_writes_keep_lengths : forall s h us sid' s' out,
+  set_vec s h us sid' = (s', out) ->
+  (forall ht, gett s' ht = gett s ht) /\
+  (forall c v', getv s' c = Some v' -> exists v, getv s c = Some v /\ List.length (vals v') = List.length (vals v)).
+Proof. exact set_vec_len. Qed.
+Print Assumptions C02_writes_keep_lengths.
+
+Example C02_example :
+  let s := run init [ONewVec 1 (CLit [SInt 1; SInt 2] None) None 5] in
+  snd (step s (ONewTab 4 [CFrom 1 None; CLit [SInt 1; SInt 2; SInt 3] None] [2; 3] [6; 7] 8)) = ErrOther /\
+  snd (step s (ONewTab 4 [CFrom 1 None; CLit [SInt 1; SNone] None] [2; 3] [6; 7] 8)) = Ok.
+Proof. vm_compute. repeat split. Qed.
